@@ -46,6 +46,11 @@ pub struct SecondaryTable {
 
     /// Next RowSet Id and DV Id of the current storage engine
     next_id: Arc<(AtomicU32, AtomicU64)>,
+
+    /// Set when the table is dropped (shared by all clones of the handle). A session may still
+    /// hold a handle it got before the DROP: what it pins afterwards is an empty table, which
+    /// must not be taken for the content of the table.
+    pub(super) dropped: Arc<std::sync::atomic::AtomicBool>,
 }
 
 impl SecondaryTable {
@@ -70,6 +75,7 @@ impl SecondaryTable {
             table_ref_id,
             storage_options,
             next_id,
+            dropped: Arc::default(),
             version,
             block_cache,
             txn_mgr,
